@@ -21,12 +21,15 @@ fn pick_n(rng: &mut Rng, thorough: bool) -> usize {
     let r = rng.below(1000);
     if r < 550 {
         *rng.pick(&[8usize, 16, 32])
-    } else if r < 960 {
+    } else if r < 955 {
         *rng.pick(&[64usize, 128, 256])
-    } else if r < 994 || !thorough {
+    } else if r < 992 {
         *rng.pick(&[512usize, 1024, 2048])
+    } else if r < 998 || !thorough {
+        // the transform tables change layout above N = 4096 (recursive construction)
+        *rng.pick(&[4096usize, 8192, 16384])
     } else {
-        *rng.pick(&[4096usize, 16384, 65536])
+        *rng.pick(&[32768usize, 65536])
     }
 }
 
@@ -142,7 +145,7 @@ impl Acc {
 const OPS: &[&str] = &[
     "dft_idft", "dft_idft_tmpa", "dft_idft_consume", "svp_apply_dft", "svp_apply_dft_to_dft", "svp_apply_dft_to_dft_assign", "vmp_apply_dft",
     "vmp_apply_dft_to_dft", "cnv_apply_dft", "cnv_pairwise_apply_dft", "cnv_prepare_self", "cnv_by_const_apply", "dft_add_into", "dft_add_assign", "dft_sub",
-    "dft_sub_assign", "dft_sub_negate_assign", "dft_add_scaled_assign", "dft_copy", "dft_zero",
+    "dft_sub_assign", "dft_sub_negate_assign", "dft_add_scaled_assign", "dft_copy", "dft_zero", "dft_chain",
 ];
 
 pub fn run(cfg: &Cfg, rep: &mut Report) {
@@ -510,6 +513,59 @@ fn one(module: &Module<BE>, op: &'static str, n: usize, rng: &mut Rng, rep: &mut
                 }
                 if let Some(m) = acc.mismatch(&got[rl]) {
                     fail!("limb {rl}: {m}");
+                }
+            }
+        }
+        // ------------------------------------------------------------------ chains of in-place DFT-domain operations on one accumulator
+        "dft_chain" => {
+            let len = rng.usize_in(2, 6);
+            let sz = rng.usize_in(1, 4);
+            let bits = max_bits_a(n, len + 1, 1).min(if IS_FFT64 { 48 } else { 58 }).saturating_sub(3).max(2);
+            let mut r0 = VBuf::new(n, 1, sz, sz);
+            fill_class(&mut r0, rng, bits, class_a);
+            let mut acc_model: Vec<Vec<i128>> = (0..sz).map(|j| r0.poly(0, j).iter().map(|x| *x as i128).collect()).collect();
+            let mut res = to_dft(module, &r0);
+            let mut steps: Vec<String> = Vec::new();
+            let mut failed: Option<String> = None;
+            for t in 0..len {
+                let mut x = VBuf::new(n, 1, sz, sz);
+                fill_class(&mut x, rng, bits, if t % 2 == 0 { class_b } else { "uniform" });
+                let xd = to_dft(module, &x);
+                let kind = *rng.pick(&["add", "sub", "sub_negate"]);
+                steps.push(kind.to_string());
+                let r = guarded(|| match kind {
+                    "add" => module.vec_znx_dft_add_assign(&mut res.view(), 0, &xd.rview(), 0),
+                    "sub" => module.vec_znx_dft_sub_assign(&mut res.view(), 0, &xd.rview(), 0),
+                    _ => module.vec_znx_dft_sub_negate_assign(&mut res.view(), 0, &xd.rview(), 0),
+                });
+                if let Err(p) = r {
+                    failed = Some(format!("panic at step {t} ({kind}): {p}"));
+                    break;
+                }
+                for j in 0..sz {
+                    for (m, v) in acc_model[j].iter_mut().zip(x.poly(0, j)) {
+                        *m = match kind {
+                            "add" => *m + *v as i128,
+                            "sub" => *m - *v as i128,
+                            _ => *v as i128 - *m,
+                        };
+                    }
+                }
+            }
+            desc.put("size", sz);
+            desc.put("bits", bits);
+            desc.put("steps", steps.join(","));
+            let key = format!("{BE_NAME}|{n}|{sz}|{}|{class_a}|{class_b}", steps.join(""));
+            rep.case(op, &key, class_a != "zero" || class_b != "zero");
+            rep.sample_for_op(&format!("{BE_NAME}:{op}"), || desc.clone());
+            if let Some(f) = failed {
+                fail!("{f}");
+            }
+            let got = idft_col(module, &res, 0, &mut sw);
+            for j in 0..sz {
+                if got[j] != acc_model[j] {
+                    let i = (0..n).find(|i| got[j][*i] != acc_model[j][*i]).unwrap();
+                    fail!("after the chain, limb {j} coefficient {i}: got {} want {}", got[j][i], acc_model[j][i]);
                 }
             }
         }
